@@ -53,8 +53,10 @@ def run(ctx):
     run.trusted_base = ["CPython ast", "sa/callgraph.py resolution, sa/forward.py provenance"]
     run.assumptions = ["exceptions CONST_TRUE_OK / UPGRADE_OK are frozen with one reason each"]
     ctx.do(rule_forward)
+    ctx.do(rule_explicit_false_kept)
     ctx.do(rule_no_upgrade)
     ctx.do(rule_flag_back)
+    ctx.do(rule_built_elements_counted)
     ctx.do(rule_privileged_keys)
     ctx.do(rule_raw_passthrough)
     ctx.do(rule_extra_props)
@@ -290,6 +292,90 @@ def _monotone(run, R, fi, g, fl, flags):
                   "custom content found earlier -- an earlier element / extension / member -- is forgotten, the object reports "
                   "has_custom=False and strict mode does not refuse it", file=rel, line=bad[0].lineno if bad else fi.node.lineno,
                   function=fi.qualname, expected="%s = %s or <nested flag>" % (F, F), found=short(bad[0]) if bad else None)
+
+
+def rule_explicit_false_kept(ctx):
+    """Where the switch is tri-state (default None = "not said"), None is told apart by identity.  A truthiness test
+    (`if not allow_custom`) sends an explicit False down the "not said" branch -- for FileSystemStore that branch makes the
+    SOURCE side lenient, so a store built with allow_custom=False returns customised content."""
+    from .C08 import _bool_uses
+    run = ctx.run
+    prog = ctx.prog
+    R = "C04.forward"
+    n = 0
+    for fi in sorted(prog.functions.values(), key=lambda f: f.id):
+        if fi.module.relpath.startswith("stix2/test"):
+            continue
+        d = fi.defaults().get(SWITCH)
+        if not (isinstance(d, ast.Constant) and d.value is None):
+            continue
+        n += 1
+        uses = _bool_uses(fi.node, SWITCH)
+        run.check(not uses, R, key(fi.module.relpath, fi.qualname, "explicit-false-is-not-absent"),
+                  "the tri-state parameter %s (default None) is tested by truthiness: an explicit False is treated as 'not given' "
+                  "and takes the default branch" % SWITCH, file=fi.module.relpath,
+                  line=(uses[0].lineno if uses and hasattr(uses[0], "lineno") else fi.node.lineno), function=fi.qualname,
+                  expected="`%s is None` / `is not None`" % SWITCH, found=[short(u, 60) if isinstance(u, ast.AST) else str(u) for u in uses][:3])
+    if n < 3:
+        raise AnalysisError("fewer than 3 functions with a tri-state %s found (%d)" % (SWITCH, n))
+
+
+_PLAIN_TYPES = ("dict", "str", "list", "tuple", "set", "bytes", "int", "float", "bool", "collections.abc.Mapping", "Mapping",
+                "collections.abc.Sequence", "collections.abc.Iterable", "Property")
+
+
+def rule_built_elements_counted(ctx):
+    """An element that arrives ALREADY BUILT (an instance of the contained / registered class: `isinstance(elem, <class>)`) was
+    built by the caller, possibly with allow_custom=True: from that test on, the iteration must reach the statement that folds
+    the element's own has_custom into the cleaner's flag.  An early `continue` on that branch keeps the element and forgets
+    its custom content: a strict constructor accepts it, and has_custom stays false."""
+    run = ctx.run
+    prog = ctx.prog
+    R = "C04.flag-back"
+    n = 0
+    for cname in sorted(CONTAINER_CLEANERS):
+        fi = prog.cls("stix2.properties::" + cname).methods.get("clean")
+        if fi is None:
+            continue
+        g = cfg_of(fi)
+        for lp in [x for x in body_walk(fi.node) if isinstance(x, ast.For)]:
+            tvars = {n_.id for n_ in ast.walk(lp.target) if isinstance(n_, ast.Name)}
+            hdr = g.node_of(lp)
+            for iff in [x for x in ast.walk(lp) if isinstance(x, ast.If)]:
+                t = iff.test
+                if not (isinstance(t, ast.Call) and call_simple_name(t) == "isinstance" and len(t.args) == 2
+                        and isinstance(t.args[0], ast.Name) and t.args[0].id in tvars):
+                    continue
+                klass = t.args[1].elts if isinstance(t.args[1], ast.Tuple) else [t.args[1]]
+                if all(norm(k_) in _PLAIN_TYPES for k_ in klass):
+                    continue
+                n += 1
+                tn = g.node_of(iff)
+                starts = [s_ for s_, lab in tn.succ if lab == "true"]
+
+                def folds(nd):
+                    a_ = nd.ast
+                    return nd.kind == "stmt" and isinstance(a_, (ast.Assign, ast.AugAssign)) and "has_custom" in norm(
+                        a_.targets[0] if isinstance(a_, ast.Assign) else a_.target) and ".has_custom" in norm(a_.value)
+                bypass = None
+                for st_ in starts:
+                    if folds(st_):
+                        continue
+                    for goal in (hdr, g.exit):
+                        p_ = g.path_avoiding(st_, goal, folds, labels_skip=("exc", "raise"))
+                        if p_ is not None:
+                            bypass = p_
+                            break
+                    if bypass:
+                        break
+                run.check(bypass is None, R, key(fi.module.relpath, fi.qualname, "built-element-counted:%s" % short(t, 50)),
+                          "an element recognised as an already-built object can end its iteration without its own has_custom being "
+                          "folded into the flag (and refused in strict mode): an object built elsewhere with allow_custom=True is "
+                          "accepted by a strict constructor and the container reports no custom content", file=fi.module.relpath,
+                          line=iff.lineno, function=fi.qualname, expected="has_custom = has_custom or <element>.has_custom on every "
+                          "path from the isinstance test to the end of the iteration", found="bypass", path=g.describe_path(bypass))
+    if n < 2:
+        raise AnalysisError("fewer than 2 'already an instance' tests found in the container cleaners (%d): anchors lost" % n)
 
 
 def rule_flag_back(ctx):
